@@ -475,7 +475,7 @@ def newSets (w : World) (g ob : Nat) (p : Policy) (tol : Int) (ms : List (Nat ×
 def newGroup (w : World) (g ob : Nat) (p : Policy) (tol : Int) (ms : List (Nat × Int)) (o : Oracle) :
     World × List Out :=
   let r := if p.needsAlive then newSets w g ob p tol ms o standardTyps else ([], [])
-  let sets := r.1.map fun s => { s with kbit := true }
+  let sets := r.1.map fun s => { s with kbit := true, ncb := 0 }
   ({ w with sets := w.sets ++ sets }, r.2 ++ standardTyps.map fun t => Out.group g t.idx true true)
 
 /-! ## events -/
